@@ -45,7 +45,7 @@ Check ==
 
 N(l) == NM("", l)
 \* family: element names (case folding, snake-casing, namespace prefixes create collisions)
-cNames == [names |-> {N(<<"a">>), N(<<"B">>), N(<<"a", "-", "b">>), NM("ns", <<"b">>)}, anames |-> {}, avals |-> {}, texts |-> {<<"v">>, <<"t", "r", "u", "e">>},
+cNames == [names |-> {N(<<"a">>), N(<<"B">>), N(<<"a", "-", "-", "b">>), NM("ns", <<"b">>)}, anames |-> {}, avals |-> {}, texts |-> {<<"v">>, <<"t", "r", "u", "e">>},
            maxattrs |-> 0, comments |-> FALSE]
 \* family: siblings whose keys coincide only after key folding (three spellings of one key; >= 4 siblings need MaxElems >= 5)
 cSibs == [names |-> {N(<<"a", "-", "b">>), N(<<"a", "_", "b">>), N(<<"A", "-", "b">>)}, anames |-> {}, avals |-> {}, texts |-> {<<"v">>},
